@@ -188,6 +188,7 @@ func runC07(r *core.Run) int {
 		var pc *patCase
 		if i%4 == 3 {
 			pc = makePattern(i, rng, [3]int{1, 0, 2}, 10)
+			noteCtx(l, pc)
 		} else {
 			opts := 0
 			for _, o := range []regexp2.RegexOptions{regexp2.IgnoreCase, regexp2.Multiline, regexp2.Singleline, regexp2.RightToLeft, regexp2.RE2, regexp2.ECMAScript} {
